@@ -1,6 +1,7 @@
 """Path enumeration by deterministic re-execution under a decision prefix; obligations; drivers."""
 from __future__ import annotations
 
+import os
 import time
 import traceback
 
@@ -74,6 +75,7 @@ class Ctx:
     def fork(self, options, label=""):
         """choose one of mutually exclusive, jointly exhaustive z3 conditions; returns its index"""
         k = len(self.taken)
+        self._budget(k)
         if k < len(self.prefix):
             i = self.prefix[k]
         else:
@@ -96,7 +98,16 @@ class Ctx:
         self.solver.add(z3.simplify(options[i]))
         return i
 
+    def _budget(self, k):
+        from . import smt as _smt
+
+        if k > MAX_DECISIONS:
+            raise Unsupported(f"more than {MAX_DECISIONS} decisions on one path (a loop without an invariant rule?)")
+        if _smt.DEADLINE[0] is not None and time.time() > _smt.DEADLINE[0] + 5:
+            raise Unsupported("time budget of the unit exhausted")
+
     def decide(self, cond, label=""):
+        self._budget(len(self.taken))
         cond = z3.simplify(cond)
         if z3.is_true(cond):
             return True
@@ -168,6 +179,9 @@ class Ctx:
         return S.fresh_bool(name)
 
 
+MAX_DECISIONS = 2000
+
+
 class PathResult:
     __slots__ = ("ctx", "outcome", "value", "decisions", "error")
 
@@ -199,6 +213,9 @@ def explore(run, max_paths=20000, both=False, time_budget=None):
                 ctx.record("FRAME/no-write-to-shared-state", False, "frame", detail="; ".join(ctx.frame_writes[:3]))
             results.append(PathResult(ctx, "unsupported", str(e), error=traceback.format_exc(limit=6)))
         work.extend(ctx.pending)
+        if os.environ.get("PYVC_STATS"):
+            with open(os.environ["PYVC_STATS"], "a") as f:
+                f.write(f"{len(ctx.taken)} {getattr(ctx, 'steps', 0)}\n")
         if len(results) > max_paths:
             results.append(PathResult(Ctx(), "unsupported", f"more than {max_paths} paths"))
             break
